@@ -123,6 +123,9 @@ fn item(i: &Item) -> String {
 /// GQL and Cypher share the spelling of the core.
 pub fn render_gql_like(q: &Query) -> String {
     let mut s = format!("MATCH {}", q.paths.iter().map(path_pat).collect::<Vec<_>>().join(", "));
+    if !q.optional.is_empty() {
+        s.push_str(&format!(" OPTIONAL MATCH {}", q.optional.iter().map(path_pat).collect::<Vec<_>>().join(", ")));
+    }
     if let Some(w) = &q.where_ {
         s.push_str(&format!(" WHERE {}", render_pred(w)));
     }
@@ -182,7 +185,7 @@ fn glit(v: &Value) -> Option<String> {
 /// Gremlin: one path, anonymous fixed-length hops, conjunctive literal filters, one result item
 /// taken from the last vertex of the traversal.
 pub fn render_gremlin(q: &Query) -> Option<String> {
-    if q.paths.len() != 1 || q.items.len() != 1 {
+    if q.paths.len() != 1 || q.items.len() != 1 || !q.optional.is_empty() {
         return None;
     }
     let p = &q.paths[0];
@@ -304,7 +307,7 @@ pub fn render_gremlin(q: &Query) -> Option<String> {
 /// to unlabelled nodes, scalar fields = projected properties (in item order), `where` objects =
 /// conjunctive literal filters, `orderBy` on a property of the root, `skip` / `first`.
 pub fn render_graphql(q: &Query) -> Option<String> {
-    if q.paths.len() != 1 || q.distinct || q.has_agg() {
+    if q.paths.len() != 1 || q.distinct || q.has_agg() || !q.optional.is_empty() {
         return None;
     }
     let p = &q.paths[0];
